@@ -609,9 +609,10 @@ func writeResults(path string, format int, rs []res) error {
 
 func reportCommand(c *run.Ctx, r *kit.Rng, s *kit.Summary) {
 	type job struct {
-		h    history
-		out  string
-		fmt_ int
+		h         history
+		out, outT string
+		opJ, opT  int
+		every     int64
 	}
 	var jobs []job
 	var ops []string
@@ -628,6 +629,7 @@ func reportCommand(c *run.Ctx, r *kit.Rng, s *kit.Summary) {
 		format := r.Pick(3)
 		in := filepath.Join(c.Work, fmt.Sprintf("res%d.bin", i))
 		out := filepath.Join(c.Work, fmt.Sprintf("rep%d.json", i))
+		outT := filepath.Join(c.Work, fmt.Sprintf("rep%d.txt", i))
 		if err := writeResults(in, format, rs); err != nil {
 			s.Diverge("c10.report", "write "+in, err.Error(), "")
 			continue
@@ -638,13 +640,14 @@ func reportCommand(c *run.Ctx, r *kit.Rng, s *kit.Summary) {
 		if size >= 5000 {
 			every = 20000000
 			s.Count("report:every=20ms")
-		} else if r.Chance(0.2) {
+		} else if r.Chance(0.2) || (size >= 100 && r.Chance(0.5)) {
 			every = 1000000
 			s.Count("report:every=1ms")
 		}
 		s.Count("report:format=" + []string{"gob", "json", "csv"}[format])
 		ops = append(ops, fmt.Sprintf("report %s %d - %s %s", kit.HexS("json"), every, kit.HexS(out), kit.HexS(in)))
-		jobs = append(jobs, job{history{Results: rs}, out, format})
+		ops = append(ops, fmt.Sprintf("report %s 0 - %s %s", kit.HexS("text"), kit.HexS(outT), kit.HexS(in)))
+		jobs = append(jobs, job{history{Results: rs}, out, outT, len(ops) - 2, len(ops) - 1, every})
 	}
 	outs, err := kit.RunVegeta(c.Vegeta, ops)
 	if err != nil {
@@ -652,15 +655,17 @@ func reportCommand(c *run.Ctx, r *kit.Rng, s *kit.Summary) {
 		return
 	}
 	st := &kit.Stream{Name: "c10.report"}
+	stT := &kit.Stream{Name: "c10.report_text"}
+	stL := &kit.Stream{Name: "c10.loop"}
 	for i, j := range jobs {
 		s.Case(fmt.Sprintf("report:%d:%d", i, len(j.h.Results)), len(j.h.Results) > 1)
-		if outs[i] != "ok" {
-			s.Diverge("c10.report", ops[i], outs[i], "ok")
+		if outs[j.opJ] != "ok" {
+			s.Diverge("c10.report", ops[j.opJ], outs[j.opJ], "ok")
 			continue
 		}
 		data, err := os.ReadFile(j.out)
 		if err != nil {
-			s.Diverge("c10.report", ops[i], err.Error(), "")
+			s.Diverge("c10.report", ops[j.opJ], err.Error(), "")
 			continue
 		}
 		lines := bytes.Split(bytes.TrimSpace(data), []byte("\n"))
@@ -669,7 +674,7 @@ func reportCommand(c *run.Ctx, r *kit.Rng, s *kit.Summary) {
 		}
 		var m vegeta.Metrics
 		if err := json.Unmarshal(lines[len(lines)-1], &m); err != nil {
-			s.Diverge("c10.report", ops[i], "unparsable JSON report: "+err.Error(), "")
+			s.Diverge("c10.report", ops[j.opJ], "unparsable JSON report: "+err.Error(), "")
 			continue
 		}
 		jl := lineOf(&m)
@@ -680,9 +685,38 @@ func reportCommand(c *run.Ctx, r *kit.Rng, s *kit.Summary) {
 				Input: j.h, Expected: lib, Observed: jl})
 		}
 		st.Add(opLine(j.h), jl)
+		// the loop of the command: every report it wrote, periodic ones included
+		checkLoop(s, stL, j.h, lines)
 		os.Remove(j.out)
+		// the text report of the command
+		if outs[j.opT] != "ok" {
+			s.Diverge("c10.report_text", ops[j.opT], outs[j.opT], "ok")
+			continue
+		}
+		text, err := os.ReadFile(j.outT)
+		if err != nil {
+			s.Diverge("c10.report_text", ops[j.opT], err.Error(), "")
+			continue
+		}
+		lm, libText, _ := implText(j.h)
+		if lm == nil || libText == nil {
+			continue
+		}
+		if !bytes.Equal(text, libText) {
+			s.Violate(kit.Violation{Kind: "report_text_differs", What: "text report of the report command differs from the library's text reporter on the same results",
+				Input: j.h, Expected: string(libText), Observed: string(text)})
+		}
+		if rows, errs, ok := parseText(text); ok {
+			stT.Add(textOp(j.h, lm), textLine(rows, errs))
+			textOracle(s, j.h, lm, rows, errs)
+		} else {
+			stT.Add(textOp(j.h, lm), "unparsable "+kit.Hex(text))
+		}
+		os.Remove(j.outT)
 	}
 	diff(st, c, s)
+	diff(stT, c, s)
+	diff(stL, c, s)
 }
 
 // ---------------------------------------------------------------- main
@@ -705,7 +739,9 @@ func runC10(c *run.Ctx, s *kit.Summary) {
 	s.Rule = "result multisets of 0..2000 (quick) / 0..100000 (thorough) results: timestamps equal/increasing/reversed/shuffled/anywhere in 1970..2200, " +
 		"latencies zero/tiny/ms/huge, status codes over the whole uint16 range, duplicate error texts; each history = an order of addition plus random Close placements, " +
 		"re-run without Close and in a permuted order with other Close placements; a tenth of the histories leaves the domain (negative/overflowing values) for the correspondence only; " +
-		"non-trivial = distinct history with ≥2 results"
+		"text reporter: %.2f on random/tie/special floats, Duration.Round on unit boundaries, library text reports of histories (a third with latencies on the unit boundaries of round), " +
+		"the in-process report command with -type json (with and without -every; every report written is replayed through the loop model) and -type text; " +
+		"non-trivial = distinct history with ≥2 results (text: ≥1)"
 	if c.Replay != "" {
 		replay(c, r, s)
 		return
@@ -768,6 +804,7 @@ func runC10(c *run.Ctx, s *kit.Summary) {
 		}
 	}
 	diff(st, c, s)
+	textStreams(c, r, s)
 	reportCommand(c, r, s)
 }
 
